@@ -292,6 +292,61 @@ let ch_c12f shex mhex xhex =
   if hex_of_bytes m <> mhex then mismatch "meta" (Printf.sprintf "fromMetaElement model=%S obs=%S input=%S" (string_of_bytes m) (string_of_bytes (bytes_of_hex mhex)) (string_of_bytes s));
   if hex_of_bytes x <> xhex then mismatch "meta" (Printf.sprintf "xmlEncoding model=%S obs=%S input=%S" (string_of_bytes x) (string_of_bytes (bytes_of_hex xhex)) (string_of_bytes s))
 
+(* ---- tar (C18) ---- *)
+let root_kid_ids = List.map int_of_nat root_kids
+let tar_id = int_of_nat (id_of_var (coq_string "tar"))
+let before_tar = let rec go = function [] -> [] | i :: l -> if i = tar_id then [] else i :: go l in go root_kid_ids
+(* c18 <hex hdr> <verdicts> <chain> <kind> *)
+let ch_c18 hex vec chain kind =
+  let hdr = bytes_of_hex hex in
+  let blk = firstn (nat_of_int 512) hdr in
+  let m = tar_det hdr in
+  let o = tar_id < String.length vec && vec.[tar_id] = '1' in
+  if m <> o then mismatch "tar" (Printf.sprintf "Tar detector model=%b obs=%b kind=%s first-block=%s" m o kind (hex_of_bytes blk));
+  let els = split_on ';' chain in
+  let n = List.length els in
+  let root_child = if n >= 2 then List.nth els (n - 2) else "-" in
+  let is_tar = root_child = "application/x-tar|.tar" in
+  let earlier = List.exists (fun i -> i < String.length vec && vec.[i] = '1') before_tar in
+  if kind = "writer" then begin
+    if not (tar_header_ok blk) then mismatch "tar-spec" (Printf.sprintf "archive/tar produced a first block that does not satisfy tar_header_ok: %s" (hex_of_bytes blk));
+    if (not is_tar) && not earlier then
+      propfail "C18" (Printf.sprintf "archive written by archive/tar not reported as application/x-tar (result %s) gpkg-name=%b first-block=%s" chain (gpkg_name blk) (hex_of_bytes blk))
+  end else if kind = "corrupt" then begin
+    if is_tar then propfail "C18" (Printf.sprintf "first header block with one corrupted byte outside the checksum field still reported as tar: first-block=%s" (hex_of_bytes blk))
+  end
+
+(* ---- zip (C19) ---- *)
+(* c19 <names hex,..> <footprints> <first body hex|deflated> <chain> <kind> <head of archive> *)
+let ch_c19 namesf footf firstf chain kind _ahead =
+  let names = List.map bytes_of_hex (String.split_on_char ',' namesf) in
+  let foot = List.map int_of_string (String.split_on_char ',' footf) in
+  let first_body = if firstf = "deflated" then None else Some (bytes_of_hex firstf) in
+  let els = split_on ';' chain in
+  let head_full = match els with h :: _ -> h | [] -> "" in
+  let head = bytes_of_string (match String.index_opt head_full '|' with Some i -> String.sub head_full 0 i | None -> head_full) in
+  let names_s = String.concat "," (List.map string_of_bytes names) in
+  (* K2: an entry (other than the first) of footprint < 26 bytes before the first OOXML marker hides the next header *)
+  let rec k2 i = function
+    | [] -> false
+    | n :: rest ->
+      let is_marker = List.exists (fun p -> has_prefix (bytes_of_string p) n) ["word/"; "xl/"; "ppt/"] in
+      if i > 0 && is_marker then false
+      else if i > 0 && (try List.nth foot i < 26 with _ -> false) then true
+      else k2 (i + 1) rest in
+  let k2f = k2 0 names in
+  let k3f = has_apk_marker names in
+  let fw = c19_forward names first_body head in
+  if fw <> [] then propfail "C19" (Printf.sprintf "%s: names=[%s] footprints=[%s] result=%s short-entry-before-marker=%b apk-marker-present=%b kind=%s" (string_of_bytes fw) names_s footf chain k2f k3f kind);
+  let cv = c19_converse names first_body head in
+  if cv <> [] then propfail "C19" (Printf.sprintf "%s: names=[%s] result=%s kind=%s" (string_of_bytes cv) names_s chain kind);
+  if no_marker names && head_full <> "application/zip|.zip" then
+    propfail "C19" (Printf.sprintf "archive without any marker not reported as plain application/zip: names=[%s] result=%s" names_s chain);
+  (* every OOXML / JAR / APK verdict has application/zip as its parent *)
+  let special = List.mem (string_of_bytes head) ["application/jar"; "application/vnd.android.package-archive"] ||
+                (String.length (string_of_bytes head) > 40 && String.sub (string_of_bytes head) 0 40 = "application/vnd.openxmlformats-officedocu") in
+  if special then (match els with _ :: p :: _ when p = "application/zip|.zip" -> () | _ -> propfail "C19" (Printf.sprintf "verdict %s does not have application/zip as its parent: %s" head_full chain))
+
 (* c10 <hex hdr> <limit> <mime|ext of the result> <kind> *)
 let json_family_heads = ["application/json|.json"; "application/geo+json|.geojson"; "application/json|.har"; "model/gltf+json|.gltf"]
 let ch_c10 hex lim head kind =
@@ -316,6 +371,8 @@ let () =
        | ["obs"; hex; lim; obs; chain; _kind] -> ch_obs hex lim obs chain
        | ["c17"; hex; classes] -> ch_c17 hex classes
        | ["c10"; hex; lim; head; kind] -> ch_c10 hex lim head kind
+       | ["c18"; hex; vec; chain; kind] -> ch_c18 hex vec chain kind
+       | ["c19"; n; f; fb; chain; kind; ah] -> ch_c19 n f fb chain kind ah
        | ["c12h"; d; t; o; ty; cs; l; k] -> ch_c12h d t o ty cs l k
        | ["c12x"; d; o; ty; cs; l; k] -> ch_c12x d o ty cs l k
        | ["c12f"; s; m; x] -> ch_c12f s m x
